@@ -137,19 +137,22 @@ def compute(
             #
             # ...but it caches hypernym lookups for speed
 
-            agenda: list[tuple[Synset, set[Synset]]] = [(synset, set())]
+            agenda: list[Synset] = [synset]
+            seen: set[Synset] = set()
             while agenda:
-                ss, seen = agenda.pop()
+                ss = agenda.pop()
 
-                # avoid cycles
+                # add the weight to each ancestor only once, even if
+                # several hypernym paths lead to it (this also avoids cycles)
                 if ss in seen:
                     continue
+                seen.add(ss)
 
                 freq[pos][ss.id] += weight
 
                 if ss not in hypernym_cache:
                     hypernym_cache[ss] = ss.hypernyms()
-                agenda.extend((hyp, seen | {ss}) for hyp in hypernym_cache[ss])
+                agenda.extend(hypernym_cache[ss])
 
     return freq
 
